@@ -133,7 +133,7 @@ func (b *Builder) FromBytes(bytes []byte) (*Config, error) {
 		return nil, ErrFailedParsing.Convert(err)
 	}
 
-	d, err := reduceAny(data, b.dimensions, 0)
+	d, err := reduceAny(data, b.dimensions)
 	if err != nil {
 		return nil, err
 	}
@@ -160,89 +160,80 @@ func (b *Builder) FromBytes(bytes []byte) (*Config, error) {
 	return cfg, nil
 }
 
-// XXX: I think last time I reduced the keys I traced them down to a bottom value
-// to see if they successfully resolved.
-// . Somehow that doesn't seem right/efficient. Why should I traverse unnecessary options?
-// . But maybe that was a form of validation that the structure I'm tracing is not,
-//   for example, a map type of a dimension type. The best example I can think of for this use case
-//   is regionalization. Sometimes you want a region to be a dimension (setting x is enabled in region y)
-//   but sometimes you want to separate something by a _discoverable_ region (regional client addresses)
-//  . a different version of safety could use special characters to difference a enum from map key.
-//    . the parser/builder step could convert the differenced enums to parsable characters.
-//      . then
-
-func reduceAny(in any, dimensions []*dimension, dIndex int) (any, error) {
+// reduceAny resolves every dimension switch of a decoded yaml value.
+//
+// A non-empty map whose keys (other than `default`) all parse as values of one registered
+// dimension is a switch of that dimension; dimensions are tried in registration order. A
+// switch is replaced by the reduction of the entry keyed by the dimension's current value
+// or, if there is no such entry, by the reduction of its `default` entry; a switch with
+// neither is an error. Only that entry is visited, so the other entries of a switch never
+// influence the result. Every other map keeps its keys and has its values reduced, and so
+// has every list.
+func reduceAny(in any, dimensions []*dimension) (any, error) {
 	switch v := in.(type) {
 	case map[string]any:
-		for i := dIndex; i < len(dimensions); i++ {
-			r, err := reduce(v, dimensions, i)
-			if err != nil || !reflect.DeepEqual(r, v) {
-				return r, err
+		dim, ok := switchDimension(v, dimensions)
+		if !ok {
+			for k, el := range v {
+				r, err := reduceAny(el, dimensions)
+				if err != nil {
+					return nil, err
+				}
+				v[k] = r
+			}
+			return v, nil
+		}
+		selected := dim.get()
+		for k, el := range v {
+			if k == defaultKey {
+				continue
+			}
+			if parsed, err := dim.defaultVal.ParseGeneric(k); err == nil && parsed == selected {
+				return reduceAny(el, dimensions)
 			}
 		}
+		if el, hasDefault := v[defaultKey]; hasDefault {
+			return reduceAny(el, dimensions)
+		}
+		keys, _ := keySet(v)
+		return nil, ErrFailedParsing.Msg(
+			"broken dim key! %T dimensions identified around keys %s, but no `default` or `%s` value found.",
+			dim.defaultVal, keys.Slice(), selected)
 	case []any:
 		for i, el := range v {
-			var err error
-			v[i], err = reduceAny(el, dimensions, dIndex)
+			r, err := reduceAny(el, dimensions)
 			if err != nil {
 				return nil, err
 			}
+			v[i] = r
 		}
-		// I'm returning an ANY here to do the map reduction in place
-		// but this is conflicting with the non-redusable case.
-		// return reduce(v, dimensions, dIndex)
 	}
 	return in, nil
 }
 
-func reduce(in map[string]any, dimensions []*dimension, dIndex int) (any, error) {
-	if dIndex+1 > len(dimensions) {
-		return in, nil
+// switchDimension returns the first registered dimension under which every key of the map
+// other than `default` parses. An empty map is not a switch.
+func switchDimension(in map[string]any, dimensions []*dimension) (*dimension, bool) {
+	if len(in) == 0 {
+		return nil, false
 	}
-	dim := dimensions[dIndex]
-	// check if this a valid dim to reduce.
-	// if it is, grab the correct one and reduce the rest.
-	keys, hasDefault := keySet(in)
+	keys, _ := keySet(in)
+	for _, dim := range dimensions {
+		if dim.parsesAll(keys) {
+			return dim, true
+		}
+	}
+	return nil, false
+}
 
-	foundDimKey := ""
+// parsesAll reports whether every key is a value of the dimension.
+func (d *dimension) parsesAll(keys set.Set[string]) bool {
 	for k := range keys {
-		if foundD, err := dim.defaultVal.ParseGeneric(k); err == nil {
-			keys.Remove(k)
-			if dim.get() == foundD {
-				foundDimKey = k
-			}
+		if _, err := d.defaultVal.ParseGeneric(k); err != nil {
+			return false
 		}
 	}
-	if len(keys) != 0 {
-		for k, v := range in {
-			var err error
-			in[k], err = reduceAny(v, dimensions, dIndex)
-			if err != nil {
-				return nil, err
-			}
-		}
-		// NOT reducable with this dim. need to try next,
-		return in, nil
-	}
-	// otherwise this is reducable.
-	// case 1: we have the dim's key. Simply follow it.
-	if v, ok := in[foundDimKey]; ok {
-		return reduceAny(v, dimensions, dIndex+1)
-	}
-	// case 2: we have default
-	if hasDefault {
-		return reduceAny(in[defaultKey], dimensions, dIndex+1)
-	}
-
-	// case 3: we have no default, and no match...
-	// There are sort of two options here.
-	// 1. This is just a completely invalid config
-	// 2. These keys are meant to be part of a map... i.e. intentionally missing properties.
-	// ...going with #1.
-	keys, _ = keySet(in)
-	return nil, ErrFailedParsing.Msg(
-		"broken dim key! %T dimensions identified around keys %s, but no `default` or `%s` value found.",
-		dim.defaultVal, keys.Slice(), dim.get())
+	return true
 }
 
 func keySet(in map[string]any) (set.Set[string], bool) {
